@@ -68,8 +68,9 @@ def run_environment(seed, pid, i):
     many Windows ones)."""
     rng = util.rng_for(seed, pid, i, salt='environment')
     env = {'locale_encoding': rng.choice(['utf-8', 'utf-8', 'utf-8', 'cp1252', 'latin-1', 'ascii'])}
-    if rng.random() < 0.125:
-        # the interpreter runs with -O / PYTHONOPTIMIZE=1: assert statements are no-ops
+    if i % 7 == 5:
+        # the interpreter runs with -O / PYTHONOPTIMIZE=1: assert statements are no-ops.  One run in seven, by the run index (7 is
+        # coprime to every other stratification in the checks), so that a check can know which of its runs these are.
         env['pyopt'] = 1
     return env
 
